@@ -224,7 +224,7 @@ func TestVerifC05Dispatch(t *testing.T) {
 			run.Count("handler_errors", int64(o.Errs))
 			if in.Family == "session" && o.Decoded >= 2 && o.Branches[0] == "handshake" {
 				run.Count("commands_after_handshake", 1)
-				if o.NilRet[0] && o.NilRet[1] {
+				if len(o.NilRet) >= 2 && o.NilRet[0] && o.NilRet[1] {
 					run.Count("commands_after_handshake_accepted", 1)
 				}
 			}
